@@ -44,6 +44,22 @@ Theorem C18_counter_of_count : forall (A : Type) (eqb : A -> A -> bool),
 Proof. exact @counter_of_count. Qed.
 Print Assumptions C18_counter_of_count.
 
+(* the vectorised histogram counts in batches of hist_batch_size repetitions and merges the batch counts by
+   Counter.update (which adds): for any positive batch size and any number of repetitions the merged Counter
+   holds, for every value, the number of its occurrences (the histogram theorems below are stated for the
+   batched model, so they cover results on both sides of the batch boundary) *)
+Theorem C18_counter_batched_count : forall (A : Type) (eqb : A -> A -> bool),
+  (forall a b, eqb a b = true <-> a = b) ->
+  forall size v l, (0 < size)%nat -> count eqb v (counter_batched eqb size l) = occurrences eqb v l.
+Proof. exact @counter_batched_count. Qed.
+Print Assumptions C18_counter_batched_count.
+
+(* non-vacuity: three batches of size 2 with values recurring across batches; the default batch size is positive *)
+Example C18_counter_batched_example :
+  batches 5 2 [5; 3; 5; 5; 3] = [[5; 3]; [5; 5]; [3]] /\
+  counter_batched Z.eqb 2 [5; 3; 5; 5; 3] = [(5, 3%nat); (3, 2%nat)] /\ (0 < hist_batch_size)%nat.
+Proof. repeat split; try reflexivity. exact hist_batch_size_pos. Qed.
+
 (* the flattened views exist exactly when every key is measured once per repetition *)
 Theorem C18_measurements_defined : forall res, measurements res <> None <-> all_single res = true.
 Proof. exact measurements_defined. Qed.
